@@ -90,14 +90,15 @@ def root_of(path):
 
 class Outcome:
     """one nondeterministic result of a primitive call"""
-    __slots__ = ('ret', 'sets', 'log', 'noreturn', 'havoc')
+    __slots__ = ('ret', 'sets', 'log', 'noreturn', 'havoc', 'apply')
 
-    def __init__(self, ret=TOP, sets=None, log=None, noreturn=False, havoc=()):
+    def __init__(self, ret=TOP, sets=None, log=None, noreturn=False, havoc=(), apply=None):
         self.ret = ret
         self.sets = sets or {}
         self.log = log
         self.noreturn = noreturn
         self.havoc = havoc
+        self.apply = apply      # callable(Env) run on this outcome's state
 
 
 class Trace:
@@ -154,6 +155,10 @@ class Hooks:
     def on_branch(self, E, cond, truth):
         pass
 
+    def materialize(self, E, path):
+        """value of a tracked path read while unknown (lets a rule model input buffers lazily)"""
+        return TOP
+
 
 class Env:
     """mutable view of one abstract state handed to hooks"""
@@ -164,6 +169,11 @@ class Env:
         self.store = store
         self.temps = temps
         self.trace = trace
+        self.dead = False
+
+    def kill(self):
+        """stop exploring this path (after a reported violation the monitors are meaningless)"""
+        self.dead = True
 
     def get(self, path):
         return self.store.get(path, TOP)
@@ -421,7 +431,12 @@ class Engine:
             if op == 'LValueToRValue':
                 p = self.canon(E, sub)
                 if p is not None and self.trackable(p):
-                    T[x.id] = E.store.get(p, TOP)
+                    v = E.store.get(p, TOP)
+                    if v is TOP:
+                        v = self.hooks.materialize(E, p)
+                        if v is not TOP:
+                            E.set(p, v)
+                    T[x.id] = v
                 else:
                     T[x.id] = TOP
             elif op == 'ArrayToPointerDecay':
@@ -585,6 +600,8 @@ class Engine:
                     E2.set(p, v)
                 if o.log:
                     E2.log('%s: %s' % (x.where, o.log))
+                if o.apply:
+                    o.apply(E2)
                 if o.noreturn:
                     self.hooks.on_exit(E2, x)
                     continue
@@ -686,11 +703,16 @@ class Engine:
                 x = fn.x(blk.elems[i]['i'])
                 r = self.eval_elem(E, x)
                 i += 1
+                if E.dead:
+                    ended = True
+                    break
                 if r == 'end':
                     ended = True
                     break
                 if r is not None:
                     for E2 in r:
+                        if E2.dead:
+                            continue
                         self.transitions += 1
                         work.append((bid, i, E2.store, E2.temps, E2.trace))
                     ended = True
@@ -867,12 +889,19 @@ class Engine:
         by concrete evaluation of cond; if it is 'path == const' on a TOP path, set it"""
         loads = []
         pure = True
-        for y in cond.walk():
+        stack = [cond]
+        while stack:
+            y = stack.pop()
+            if y is None:
+                continue
             if y.k == 'cast' and y.op == 'LValueToRValue':
                 p = self.canon(E, y.args[0])
                 loads.append((y, p))
+                if p is not None and '[*]' not in p and self.trackable(p):
+                    continue    # address sub-expressions of a resolved load are not inputs
             elif y.k in ('call', 'asg', 'stmtexpr') or (y.k == 'un' and y.op in ('pre++', 'pre--', 'post++', 'post--')):
                 pure = False
+            stack.extend(y.args)
         if not pure:
             return True
         paths = {p for _, p in loads}
